@@ -7,6 +7,8 @@ var Registry = map[string]func() *vlib.Plan{
 	"C01": C01Plan,
 	"C02": C02Plan,
 	"C03": C03Plan,
+	"C04": C04Plan,
+	"C06": C06Plan,
 	"C08": C08Plan,
 	"C09": C09Plan,
 	"C10": C10Plan,
